@@ -86,7 +86,9 @@ def dispatch_side_obligations(ctx, an: Anchors, f: FuncInfo, call: ast.Call) -> 
     if len(call.args) != 1:
         problems.append("dispatch argument count")
     else:
-        arg = call.args[0]
+        from .common import defining_call
+
+        arg = defining_call(ctx.a, f, call.args[0], call) or call.args[0]
         ok = False
         if isinstance(arg, ast.Call):
             c = ctx.a.callee(f, arg)
